@@ -101,3 +101,63 @@ Proof.
   edestruct Fair_loop as [p' ->]; [|reflexivity].
   intros k. specialize (H k). rewrite (N.mul_comm (dd / len ps)) in *. lia.
 Qed.
+
+(* ---- Rate = Divider.rate part_f (the float64 expression is literally Float64.part_f): a function that calls another
+   generated function (SumPriorities: rewritten with its tie lemma) and returns from inside the loop *)
+Definition rate_obs (c : ctl Rate_vars unit) : option (nat * list N * gmap N * option N) :=
+  match c with
+  | Next v => Some (Rate_w v, Rate_priorities v, Rate_distribution v, Some (Rate_remainder v))
+  | Ret v _ => Some (Rate_w v, Rate_priorities v, Rate_distribution v, None)
+  | _ => None
+  end.
+
+Lemma Rate_loop ps : forall ps0 dd m S rem p0 pt0 w,
+  (forall k, get m k + rem < u_modulus) ->
+  rate_obs (range_loop gen_Rate_loop1 ps
+              (mk_Rate_vars ps0 dd (Some m) S (Float64.fdiv (f_of_u dd) (f_of_u S)) rem p0 pt0 w)) =
+  Some (w, ps0, Some (fst (rate_loop Float64.part_f dd S ps rem m)), snd (rate_loop Float64.part_f dd S ps rem m)).
+Proof.
+  induction ps as [|p r IH]; intros ps0 dd m S rem p0 pt0 w H; [reflexivity|].
+  cbn. rewrite <- part_f_eq. rewrite !aget_get, !aset_set.
+  destruct (N.ltb_spec rem (Float64.part_f dd S p)) as [Hlt|Hge]; cbn.
+  - rewrite u_add_small by apply H. reflexivity.
+  - rewrite !aget_get, !aset_set.
+    rewrite u_add_small by (specialize (H p); lia).
+    rewrite u_sub_small by (specialize (H p); lia).
+    unfold add. apply IH.
+    intros k. destruct (N.eq_dec p k) as [->|Hne].
+    + rewrite get_set_same. specialize (H k). lia.
+    + rewrite get_set_other by auto. specialize (H k). lia.
+Qed.
+
+Lemma rate_loop_bound part d0 S ps : forall rem m m' rem',
+  (forall k, get m k + rem < u_modulus) ->
+  rate_loop part d0 S ps rem m = (m', Some rem') ->
+  forall k, get m' k + rem' < u_modulus.
+Proof.
+  induction ps as [|p r IH]; intros rem m m' rem' H E; cbn in E.
+  - now injection E as <- <-.
+  - destruct (N.ltb_spec rem (part d0 S p)); [discriminate|].
+    eapply IH; [|exact E]. intros k. unfold add. destruct (N.eq_dec p k) as [->|Hne].
+    + rewrite get_set_same. specialize (H k). lia.
+    + rewrite get_set_other by auto. specialize (H k). lia.
+Qed.
+
+Lemma tie_Rate w ps dd m :
+  sum_list ps < u_modulus ->
+  (forall k, get m k + dd < u_modulus) ->
+  gen_Rate w ps dd (Some m) = (w, Some (rate Float64.part_f ps dd m), tt).
+Proof.
+  intros HS H. unfold gen_Rate, rate. destruct ps as [|p0 r]; [reflexivity|].
+  set (ps := p0 :: r) in *.
+  cbn -[ps]. unfold ps at 1. rewrite len_cons_neq0. cbn -[ps].
+  rewrite tie_SumPriorities by assumption. cbn -[ps].
+  pose proof (Rate_loop ps ps dd m (sum_list ps) dd 0 0 w H) as L.
+  destruct (rate_loop Float64.part_f dd (sum_list ps) ps dd m) as [m' [rem'|]] eqn:E;
+    destruct (range_loop gen_Rate_loop1 ps _) as [v|v u|v|v|v]; cbn in L; try discriminate.
+  - injection L as Hw Hps Hm Hr. cbn -[ps]. rewrite Hw, Hm, Hps, Hr. cbn. rewrite aget_get, aset_set.
+    (* the final `distribution[priorities[0]] += remainder` is bounded like every other addition *)
+    rewrite u_add_small by (eapply rate_loop_bound; [exact H|exact E]).
+    reflexivity.
+  - injection L as Hw Hps Hm. cbn -[ps]. destruct u. now rewrite Hw, Hm.
+Qed.
